@@ -431,6 +431,10 @@ class _Run:
         self.steps_done = 0
         self.steps_skipped = 0
         self.final: dict = {}
+        self.relogin_tasks: list = []
+        self.relogins = 0
+        self.searches_failed = 0
+        self.has_relogin = any(stp['k'] == 'relogin' for stp in script['steps'])
         self.reactions: dict[str, dict] = {}
         for i, stp in enumerate(script['steps']):
             if stp['k'] == 'react' and stp['ref'] not in self.reactions:
@@ -476,8 +480,12 @@ class _Run:
 
     # -- listeners ---------------------------------------------------------
     def on_sent(self, ev):
-        req = ev.query
-        if req.search_type.name == 'WISHLIST':
+        self.note_created(ev.query, 'manager')
+
+    def note_created(self, req, via: str, label: Optional[str] = None):
+        if label is not None:
+            pass
+        elif req.search_type.name == 'WISHLIST':
             n = self.label_count.get(req.query, 0)
             self.label_count[req.query] = n + 1
             try:
@@ -490,9 +498,12 @@ class _Run:
         rid = self.rid_of(req, label)
         R = self.reqs[rid]
         again = R['sent']
-        R.update(label=label, ticket=req.ticket, tau=self.expected_tau(req), t=self.loop.time(), live_rt=True,
-                 sent=True, has_timer=req.timer is not None)
-        self.add('sent', rid=rid, ticket=req.ticket, again=again)
+        tau = self.expected_tau(req)
+        if via == 'command' and req.timer is None:
+            tau = 0       # whether a request made through the command API gets a timeout is not stated: not demanded
+        R.update(label=label, ticket=req.ticket, tau=tau, t=self.loop.time(), live_rt=True,
+                 sent=True, has_timer=req.timer is not None, via=via)
+        self.add('sent', rid=rid, ticket=req.ticket, again=again, via=via)
         fut = self.created(label)
         if not fut.done():
             fut.set_result(rid)
@@ -573,6 +584,12 @@ class _Run:
             self.react_op(rx, R)
         self.add('react-done', rid=R['rid'])
         self.steps_done += 1
+
+    def on_session_up(self, ev):
+        self.add('session-up')
+
+    def on_session_lost(self, ev):
+        self.add('session-lost')
 
     def on_removed(self, ev):
         req = ev.query
@@ -692,18 +709,26 @@ class _Run:
         if k == 'search':
             q = f'q-{label}'
             typ = st['type']
-            if typ == 'room':
+            if st.get('api') == 'command':
+                coro = self.command_search(typ, q, label)
+            elif typ == 'room':
                 coro = client.searches.search_room('room-1', q)
             elif typ == 'user':
                 coro = client.searches.search_user('bob', q)
             else:
                 coro = client.searches.search(q)
             self.pending.append(self.w.spawn('me', coro, name=f'vf-search-{label}'))
+        elif k == 'relogin':
+            self.relogin_tasks.append(self.w.spawn('me', self.do_relogin(i, st), name=f'vf-relogin-{i}'))
         elif k == 'wishlist':
             from aioslsk.protocol.messages import WishlistInterval
             self.pushed_interval = self.script['interval']
-            self.w.server.push('me', WishlistInterval.Response(self.script['interval']))
-            self.add('push', interval=self.script['interval'])
+            sess = self.w.server.session_of('me')
+            if sess is not None and sess.open and sess.logged_in:
+                self.w.server.push('me', WishlistInterval.Response(self.script['interval']))
+                self.add('push', interval=self.script['interval'])
+            else:
+                self.add('push-deferred', interval=self.script['interval'])     # announced after the next logon
         elif k == 'remove':
             R = self.reqs[self.created(st['ref']).result()]
             self.do_remove(R, st['by'])
@@ -722,6 +747,58 @@ class _Run:
                     self.after_gap(st['gap'], lambda: self.timer_reschedule(R, st.get('tau3')), f'step {i} second op')
         elif k == 'reply':
             self.do_reply(i, st, links)
+
+    async def command_search(self, typ: str, q: str, label: str):
+        """The same searches through the command API (client.execute): no SearchRequestSentEvent is emitted for
+        them, so the harness records the creation itself right after the command returned (same synchronous
+        stretch as the command's own registration)."""
+        from aioslsk.commands import GlobalSearchCommand, RoomSearchCommand, UserSearchCommand
+        if typ == 'room':
+            cmd = RoomSearchCommand('room-1', q)
+        elif typ == 'user':
+            cmd = UserSearchCommand('bob', q)
+        else:
+            cmd = GlobalSearchCommand(q)
+        await self.client.execute(cmd)
+        req = next((v for v in self.client.searches.requests.values() if v.query == q), None)
+        if req is None:
+            self.add('command-without-request', label=label)
+        elif id(req) not in self.by_id:
+            self.note_created(req, 'command', label)
+        return req
+
+    async def do_relogin(self, i: int, st: dict):
+        """The server link is lost (server-side RST / FIN / both directions reset) and the application logs in
+        again (connect_server + login, as the library's own reconnect does; reconnect.auto is off)."""
+        try:
+            w, client = self.w, self.client
+            sess = w.server.session_of('me')
+            if sess is None or not sess.open or client.session is None:
+                self.add('relogin-skip')
+                return
+            mode = st.get('mode', 'rst')
+            self.add('server-drop', mode=mode)
+            if mode == 'cut':
+                w.net.cut_now(sess.writer.transport.conn, 'rst')
+            else:
+                sess.close(mode)
+            for _ in range(600):
+                if client.session is None and client.network.server_connection.state.name == 'CLOSED':
+                    break
+                await asyncio.sleep(0.005)
+            else:
+                w.harness_error(f'step {i}', 'the client did not notice the lost server connection within 3 s')
+                return
+            if st.get('down'):
+                await asyncio.sleep(float(st['down']))
+            await client.network.connect_server()
+            await client.login()
+            self.relogins += 1
+            self.add('relogged')
+        except asyncio.CancelledError:
+            raise
+        except Exception:
+            self.w.harness_error(f'step {i} relogin', traceback.format_exc())
 
     def do_remove(self, R: dict, by: str):
         arg = R['obj'] if by == 'object' else R['ticket']
@@ -797,6 +874,12 @@ class _Run:
             return ConnPlan(latency=0.01, seg='whole', seg_lat=(0.0, 0.0))
         w.net.planner = planner
         await w.start_server()
+
+        def post_login(session):
+            # like the real server: the wishlist interval is announced after every logon (once it was scripted)
+            from aioslsk.protocol.messages import WishlistInterval
+            return [WishlistInterval.Response(self.pushed_interval)] if self.pushed_interval is not None else []
+        w.server.post_login = post_login
         settings = w.make_settings('me', searches=SearchSettings(
             send=SearchSendSettings(store_results=sc['store_results'], request_timeout=sc['request_timeout'],
                                     wishlist_request_timeout=sc['wishlist_request_timeout']),
@@ -809,6 +892,8 @@ class _Run:
         h.listen(E.SearchRequestSentEvent, self.app_on_sent_sync)      # same priority: run in registration order
         h.listen(E.SearchRequestSentEvent, self.app_on_sent_async)
         h.listen(E.SearchRequestRemovedEvent, self.on_removed)
+        h.listen(E.SessionInitializedEvent, self.on_session_up)
+        h.listen(E.SessionDestroyedEvent, self.on_session_lost)
         h.listen(E.SearchResultEvent, self.on_result)
         h.listen(E.MessageReceivedEvent, self.on_message)
         h.record(E.SearchRequestSentEvent, E.SearchRequestRemovedEvent, E.SearchResultEvent)
@@ -832,7 +917,13 @@ class _Run:
             if not t.done():
                 w.harness_error('search call', 'search() did not return')
             elif t.exception() is not None:
-                w.harness_error('search call', repr(t.exception()))
+                if self.has_relogin:
+                    self.searches_failed += 1      # no server connection at that moment: not judged
+                else:
+                    w.harness_error('search call', repr(t.exception()))
+        for t in self.relogin_tasks:
+            if not t.done():
+                w.harness_error('relogin', 'the re-login did not finish')
         gc.collect()
         await settle(0.0)
         self.add('final')
@@ -873,7 +964,9 @@ def judge(run: _Run, out, res: dict) -> dict:
            'wishlist_rounds': 0, 'timeout0_judged': 0, 'replies_delivered': 0, 'replies_undelivered': 0,
            'registry_checks': 0, 'result_events': 0, 'manual_removals': 0, 'removal_keyerror_not_judged': 0,
            'timer_ops_skipped': 0, 'steps_done': run.steps_done, 'steps_skipped': run.steps_skipped,
-           'timer_rules_judged': 0, 'errors_attributed': 0, 'followup_not_reported': 0, 'sent_reactions': 0}
+           'timer_rules_judged': 0, 'errors_attributed': 0, 'followup_not_reported': 0, 'sent_reactions': 0,
+           'relogins': run.relogins, 'searches_failed_not_judged': run.searches_failed, 'requests_live_across_relogin': 0,
+           'requests_created_after_relogin': 0, 'command_api_requests': 0}
     st = {R['rid']: {'armed': [], 'removed_by': None, 't_dead': None, 'removals': [], 'results': 0, 'touched': False,
                      'tainted': False, 'ops': []} for R in reqs}
     live: set[int] = set()
@@ -882,6 +975,8 @@ def judge(run: _Run, out, res: dict) -> dict:
     results_by_marker: dict[str, list] = {}
     reg_reported: set = set()
     race_orders: list[str] = []
+    mixed_collision: list[int] = []
+    relogged_n: list[int] = []
 
     def T(t):
         return round(t - run.T0, 6)
@@ -931,9 +1026,19 @@ def judge(run: _Run, out, res: dict) -> dict:
                 continue
             obs['requests_created'] += 1
             sent_n[rid] = e['n']
+            if e.get('via') == 'command':
+                obs['command_api_requests'] += 1
+            if relogged_n:
+                obs['requests_created_after_relogin'] += 1
             for o in sorted(live):
                 if reqs[o]['ticket'] == R['ticket']:
-                    V.append(('duplicate-live-ticket', {'t': T(e['t']), 'new': brief(R), 'live': brief(reqs[o])}))
+                    mixed = reqs[o].get('via') != R.get('via')
+                    if mixed:
+                        mixed_collision.append(len(V))
+                    V.append(('duplicate-live-ticket' + (':mixed-apis' if mixed else ''),
+                              {'t': T(e['t']), 'new': dict(brief(R), api=R.get('via')),
+                               'live': dict(brief(reqs[o]), api=reqs[o].get('via')),
+                               'sessions_since_live_one': len([x for x in log[sent_n[o]:e['n']] if x['k'] == 'session-up'])}))
             live.add(rid)
             if R['tau'] > 0:
                 st[rid]['armed'].append({'d': e['t'] + R['tau'], 'by': 'start', 'end': None, 'n': e['n']})
@@ -1019,6 +1124,9 @@ def judge(run: _Run, out, res: dict) -> dict:
             st[rid]['armed'].append({'d': e['t'] + e['tau'], 'by': 'reschedule', 'end': None, 'n': e['n']})
         elif k == 'timer-skip':
             obs['timer_ops_skipped'] += 1
+        elif k == 'relogged':
+            relogged_n.append(e['n'])
+            obs['requests_live_across_relogin'] += len(live)
         elif k == 'react-done':
             obs['sent_reactions'] += 1
             for a in st[rid]['armed']:
@@ -1243,6 +1351,10 @@ def judge(run: _Run, out, res: dict) -> dict:
         else:
             anchor = 'abs' if 'abs' in at else f"{at['edge']}{'+0' if at['dt'] == 0 else ('+' if at['dt'] > 0 else '-')}"
         sub = stp.get('type') or stp.get('op') or stp.get('by') or ''
+        if stp['k'] == 'relogin':
+            sub = f"{stp.get('mode')}/{stp.get('down', 0)}"
+        if stp['k'] == 'search' and stp.get('api') == 'command':
+            sub += '/command'
         if stp['k'] == 'react':
             sub = f"{stp['how']}/{stp.get('who', '')}/{stp.get('suspend', '')}/{stp.get('after', '')}/{stp['op']}"
         if stp['k'] == 'reply':
@@ -1258,6 +1370,12 @@ def judge(run: _Run, out, res: dict) -> dict:
                 obs['same_instant_races'] += 1
                 race_orders.append('reply-arrives-at-deadline')
 
+    if mixed_collision:
+        # two requests made through different APIs share a ticket: the registry is corrupt from here on, everything
+        # else this case shows is a consequence; only the collision itself is reported
+        keep = [V[n] for n in mixed_collision]
+        obs['followup_not_reported'] += len(V) - len(keep)
+        V = keep
     decisive = obs['results_judged'] + obs['removals_judged'] + obs['timer_rules_judged'] + obs['timeout0_judged']
     return {'violations': V, 'obs': obs, 'tokens': tokens, 'race_orders': race_orders, 'decisive': decisive,
             'requests': [brief(R) for R in reqs]}
@@ -1307,7 +1425,8 @@ def run_case(params: dict) -> dict:
     for ro in j['race_orders']:
         runner.add_cover(res, 'same_instant_orders', ro)
     for stp in script['steps']:
-        runner.add_cover(res, 'step_kinds', stp['k'] + ':' + str(stp.get('op') or stp.get('type') or stp.get('ticket') or stp.get('by') or ''))
+        runner.add_cover(res, 'step_kinds', stp['k'] + ':' + str(stp.get('op') or stp.get('type') or stp.get('ticket') or stp.get('by') or stp.get('mode') or '')
+                         + ('/command' if stp.get('api') == 'command' else ''))
     runner.add_cover(res, 'request_timeouts', script['request_timeout'])
     if script['wishlist'] and any(s['k'] == 'wishlist' for s in script['steps']):
         runner.add_cover(res, 'wishlist_timeouts', script['wishlist_request_timeout'])
